@@ -592,7 +592,7 @@ repeat_nested:
             /* `struct_base` is given as argument to struct parsers. */
             println(out, "pval = (void *)((size_t)struct_base + %"PRIu64");", (uint64_t)member->offset);
         }
-    } else if (is_struct && !is_vector) {
+    } else if (is_struct && !is_vector && is_nested != 2) {
         /* Same logic as scalars in tables, but scalars must be tested for default. */
         println(out,
             "if (!(pval = flatcc_builder_table_add(ctx->ctx, %"PRIu64", %"PRIu64", %"PRIu16"))) goto failed;",
@@ -641,6 +641,9 @@ repeat_nested:
             unindent(); println(out, "} else if (!(ctx->flags & flatcc_json_parser_f_skip_array_overflow)) {"); indent();
             println(out, "return flatcc_json_parser_set_error(ctx, buf, end, flatcc_json_parser_error_array_overflow);");
             unindent(); println(out, "}");
+        } else if (is_nested == 2) {
+            /* A struct as root of a nested buffer is built like a struct root, not added to the parent table. */
+            println(out, "buf = %s_parse_json_struct(ctx, buf, end, &ref);", snref.text);
         } else {
             println(out, "buf = %s_parse_json_struct_inline(ctx, buf, end, pval);", snref.text);
         }
